@@ -10,6 +10,8 @@
  *                                 when len is smaller than one frame of the link being read the call must be refused
  *                                 (negative return, 0 tolerated at end of stream) without touching the buffer; the walk then
  *                                 advances both handles with ov_read_float by 1,2,3.. frames.
+ *   S <path> <fmt> <len> <n1:ch1,n2:ch2,..>   the twin read-through on NON-SEEKABLE handles of a chained stream (see run_stream)
+ *   F <path> <fmt> <filt> <pattern>   ov_read_filter with a non-idempotent gain/offset filter under request patterns (see run_gain)
  *   W <path> <word> <len>         non-positive word: refused without writing at every position of a float walk
  *   V <path> <fmt> <lo> <hi> [len]   value enumeration: the filter callback of ov_read_filter overwrites the decoded block
  *                                 with the float bit patterns lo..hi-1 (frame-major, channel-minor); the packed bytes are
@@ -302,6 +304,164 @@ static void run_twin(long idx,const char *path,int fmt,int reqlen,int wordover,i
   __real_free(raw); __real_free(tmp);
 }
 
+/* ------------------------------------------------------------------ twin read-through on NON-SEEKABLE handles (chained streams)
+ * S <path> <fmt> <len> <n1:ch1,n2:ch2,...>
+ * Both handles are opened with callbacks that have no seek/tell.  The channel count of the link being read comes from the
+ * case line (construction ground truth: frames consumed so far against the link lengths), never from the handle under test.
+ * ov_pcm_tell must advance by the frames returned within a link (the first read of a link is exempt: a streaming handle
+ * re-bases its position when a link starts) and must equal the float twin's position after every read. */
+static void run_stream(long idx,const char *path,int fmt,int len,const char *links){
+  int word=(fmt&4)?2:1,sgned=(fmt>>1)&1,be=fmt&1; fent *f=get_file(path); memio ma,mb; OggVorbis_File A,B; tally t; char what[240];
+  long ln[16]; int lc[16],nl=0,link=0; long cin=0,reads=0,rej=0,frames_total=0,crossed=0,step=0; unsigned char *raw; float *tmp; long tmpcap=255*128; const char *q=links;
+  memset(&t,0,sizeof(t)); what[0]=0; t.envelope=1;
+  while(*q&&nl<16){ char *e; ln[nl]=strtol(q,&e,10); if(*e!=':')break; lc[nl]=(int)strtol(e+1,&e,10); nl++; q=(*e==',')?e+1:e; }
+  if(nl<1||len<0){ printf("%ld bad what=badcase\n",idx); return; }
+  raw=(unsigned char*)__real_malloc(GUARD+len+GUARD+SLACK); tmp=(float*)__real_malloc(sizeof(float)*tmpcap);
+  mio_init(&ma,f->data,f->len); mio_init(&mb,f->data,f->len);
+  if(ov_open_callbacks(&ma,&A,NULL,0,mio_cb_stream)<0){ printf("%ld bad what=openA\n",idx); return; }
+  if(ov_open_callbacks(&mb,&B,NULL,0,mio_cb_stream)<0){ printf("%ld bad what=openB\n",idx); ov_clear(&A); return; }
+  if(ov_seekable(&A)||ov_seekable(&B))snprintf(what,sizeof(what),"handle_is_seekable");
+  while(!what[0]){
+    ogg_int64_t pa,pa2; int ateof,ch,frame,bs=-1; long r,k;
+    while(link<nl&&cin>=ln[link]){ link++; cin=0; if(link<nl)crossed++; }
+    ateof=(link>=nl); ch=lc[ateof?nl-1:link]; frame=word*ch;
+    pa=ov_pcm_tell(&A);
+    fill_canary(raw,GUARD+len+GUARD);
+    r=ov_read(&A,(char*)raw+GUARD,len,be,word,sgned,&bs);
+    if((k=first_touched(raw,0,GUARD))>=0||(k=first_touched(raw,GUARD+len,GUARD+len+GUARD))>=0){ snprintf(what,sizeof(what),"wrote_outside_buffer:off%ld:len%d:link%d:in%ld",k-GUARD,len,link,cin); break; }
+    if(len<frame){
+      long adv;
+      if(!(r<0||(r==0&&ateof))){ snprintf(what,sizeof(what),"small_buffer_not_refused:ret%ld:len%d:frame%d:link%d:in%ld",r,len,frame,link,cin); break; }
+      if((k=first_touched(raw,GUARD,GUARD+len))>=0){ snprintf(what,sizeof(what),"small_buffer_refused_but_wrote:off%ld:ret%ld:len%d:link%d:in%ld",k-GUARD,r,len,link,cin); break; }
+      rej++;
+      if(ateof)break;
+      step=step%41+1;
+      adv=float_step(&A,&B,step,tmp,tmpcap);
+      if(adv<=0){ snprintf(what,sizeof(what),"float_twins_diverged_or_short:%ld:link%d:in%ld",adv,link,cin); break; }
+      if(cin+adv>ln[link]){ snprintf(what,sizeof(what),"float_read_overruns_link:%ld+%ld>%ld:link%d",cin,adv,ln[link],link); break; }
+      cin+=adv;
+      continue;
+    }
+    if(r<0){ snprintf(what,sizeof(what),"unexpected_error:ret%ld:len%d:link%d:in%ld",r,len,link,cin); break; }
+    if(r==0){
+      float **pp; long nb=ov_read_float(&B,&pp,1024,&bs);
+      if(nb!=0){ snprintf(what,sizeof(what),"int_eof_but_float_continues:link%d:in%ld:float%ld",link,cin,nb); break; }
+      if((k=first_touched(raw,GUARD,GUARD+len))>=0){ snprintf(what,sizeof(what),"eof_but_wrote:off%ld",k-GUARD); break; }
+      if(!ateof){ snprintf(what,sizeof(what),"eof_before_total:link%d:in%ld<%ld",link,cin,ln[link]); break; }
+      break;
+    }
+    if(ateof){ snprintf(what,sizeof(what),"data_after_last_link:ret%ld",r); break; }
+    if(r>len){ snprintf(what,sizeof(what),"retval_exceeds_length:%ld>%d:link%d:in%ld",r,len,link,cin); break; }
+    if(r%frame){ snprintf(what,sizeof(what),"retval_not_whole_frames:%ld%%%d:len%d:link%d:in%ld",r,frame,len,link,cin); break; }
+    if((k=first_touched(raw,GUARD+r,GUARD+len))>=0){ snprintf(what,sizeof(what),"wrote_beyond_returned_count:off%ld:ret%ld:len%d:link%d:in%ld",k-GUARD,r,len,link,cin); break; }
+    {
+      long fr=r/frame,got=0;
+      if(cin+fr>ln[link]){ snprintf(what,sizeof(what),"read_overruns_link:%ld+%ld>%ld:link%d",cin,fr,ln[link],link); break; }
+      pa2=ov_pcm_tell(&A);
+      if(cin>0&&pa2!=pa+fr){ snprintf(what,sizeof(what),"tell_advance:%ld+%ld!=%ld:len%d:link%d:in%ld",(long)pa,fr,(long)pa2,len,link,cin); break; }
+      while(got<fr&&!what[0]){
+        float **pp; int b2; long j,c,nb=ov_read_float(&B,&pp,(int)(fr-got),&b2);
+        if(nb<=0){ snprintf(what,sizeof(what),"float_twin_short:%ld:after%ld_of%ld:link%d:in%ld",nb,got,fr,link,cin); break; }
+        if(ov_info(&B,-1)->channels!=ch){ snprintf(what,sizeof(what),"channel_count_model:%d!=%d:link%d:in%ld",ov_info(&B,-1)->channels,ch,link,cin); break; }
+        for(j=0;j<nb;j++)for(c=0;c<ch;c++){
+          uint32_t bits; int kk; memcpy(&bits,&pp[c][j],4);
+          kk=judge(bits,word,sgned,be,raw+GUARD+((got+j)*ch+c)*word,&t);
+          if(kk&&!what[0])snprintf(what,sizeof(what),"value:link%d:in%ld:frame%ld:ch%ld:bits%08x:len%d",link,cin,got+j,c,bits,len);
+        }
+        got+=nb;
+      }
+      if(what[0])break;
+      if(ov_pcm_tell(&B)!=pa2){ snprintf(what,sizeof(what),"twin_positions_differ_after:%ld:%ld:link%d:in%ld",(long)pa2,(long)ov_pcm_tell(&B),link,cin); break; }
+      reads++; frames_total+=fr; cin+=fr;
+    }
+  }
+  ov_clear(&A); ov_clear(&B);
+  printf("%ld %s",idx,(what[0]||t.bad)?"bad":"ok");
+  print_tally(&t);
+  printf(" reads=%ld rej=%ld frames=%ld links=%d crossed=%ld what=%s\n",reads,rej,frames_total,nl,crossed,what[0]?what:"-");
+  __real_free(raw); __real_free(tmp);
+}
+
+/* ------------------------------------------------------------------ ov_read_filter with a NON-IDEMPOTENT filter
+ * F <path> <fmt> <filt> <pattern>
+ *   filt: 0 gain 2.0, 1 gain 0.5, 2 offset +0.25        pattern: 0 big buffer (65536), 1 100-byte buffer, 2 one-frame buffer,
+ *   3 big buffers, every third request refused-by-construction (one byte short of a frame, -1, -4096 in turn)
+ * Every returned byte must be convert(filter(x)) with the filter applied exactly ONCE to the float x the twin handle delivers
+ * for that position (same C expression on both sides, so the expected float is bit-exact), and over the whole read-through the
+ * filter must have been handed exactly as many samples as frames were returned (sum of its `samples` arguments). */
+typedef struct { int filt; long calls,samples,chan_mismatch; long ch; } gainst;
+static inline float gain_apply(int filt,float x){ return filt==0?x*2.0f:(filt==1?x*0.5f:x+0.25f); }
+static void gain_filter(float **pcm,long channels,long samples,void *param){
+  gainst *g=(gainst*)param; long c,j;
+  g->calls++; g->samples+=samples; if(channels!=g->ch)g->chan_mismatch++;
+  for(c=0;c<channels;c++)for(j=0;j<samples;j++)pcm[c][j]=gain_apply(g->filt,pcm[c][j]);
+}
+static void run_gain(long idx,const char *path,int fmt,int filt,int pattern){
+  int word=(fmt&4)?2:1,sgned=(fmt>>1)&1,be=fmt&1; fent *f=get_file(path); memio ma,mb; OggVorbis_File A,B; tally t; char what[240];
+  long reads=0,rej=0,frames_total=0,ncall=0,refuse_turn=0; unsigned char *raw; gainst g; int blen=65536; ogg_int64_t total;
+  memset(&t,0,sizeof(t)); memset(&g,0,sizeof(g)); what[0]=0; t.envelope=1; g.filt=filt;
+  if(filt<0||filt>2||pattern<0||pattern>3){ printf("%ld bad what=badcase\n",idx); return; }
+  if(pattern==1||pattern==2)blen=1024;   /* the checked real buffer; requests of these patterns are at most 100 bytes / one frame */
+  raw=(unsigned char*)__real_malloc(GUARD+blen+GUARD+SLACK);
+  mio_init(&ma,f->data,f->len); mio_init(&mb,f->data,f->len);
+  if(ov_open_callbacks(&ma,&A,NULL,0,mio_cb_seekable)<0){ printf("%ld bad what=openA\n",idx); return; }
+  if(ov_open_callbacks(&mb,&B,NULL,0,mio_cb_seekable)<0){ printf("%ld bad what=openB\n",idx); ov_clear(&A); return; }
+  total=ov_pcm_total(&A,-1);
+  while(!what[0]){
+    ogg_int64_t pa=ov_pcm_tell(&A); int ch=chans_at(&A,pa),frame=word*ch,len,refuse=0,bs=-1; long r,k,calls0=g.calls,samples0=g.samples;
+    g.ch=ch;
+    if(pattern==0)len=65536; else if(pattern==1)len=100; else if(pattern==2)len=frame;
+    else{ if(ncall%3==1){ static const int bad[3]={0,-1,-4096}; refuse=1; len=(refuse_turn%3==0)?frame-1:bad[refuse_turn%3]; refuse_turn++; } else len=65536; }
+    ncall++;
+    if(len>=0&&len<frame)refuse=1;      /* 100 bytes are less than one frame of a wide stream */
+    fill_canary(raw,GUARD+blen+GUARD);
+    r=ov_read_filter(&A,(char*)raw+GUARD,len,be,word,sgned,&bs,gain_filter,&g);
+    if((k=first_touched(raw,0,GUARD))>=0||(k=first_touched(raw,GUARD+blen,GUARD+blen+GUARD))>=0){ snprintf(what,sizeof(what),"wrote_outside_buffer:off%ld:len%d:pos%ld",k-GUARD,len,(long)pa); break; }
+    if(refuse){
+      if(!(r<0||(r==0&&pa>=total))){ snprintf(what,sizeof(what),"small_buffer_not_refused:ret%ld:len%d:frame%d:pos%ld",r,len,frame,(long)pa); break; }
+      if((k=first_touched(raw,GUARD,GUARD+blen))>=0){ snprintf(what,sizeof(what),"small_buffer_refused_but_wrote:off%ld:ret%ld:len%d:pos%ld",k-GUARD,r,len,(long)pa); break; }
+      if(ov_pcm_tell(&A)!=pa){ snprintf(what,sizeof(what),"refused_read_moved_position:%ld->%ld",(long)pa,(long)ov_pcm_tell(&A)); break; }
+      rej++;
+      if(pa>=total||pattern!=3){ if(pattern!=3&&pa<total)snprintf(what,sizeof(what),"badcase_pattern_cannot_progress"); break; }
+      continue;
+    }
+    if(r<0){ snprintf(what,sizeof(what),"unexpected_error:ret%ld:len%d:pos%ld",r,len,(long)pa); break; }
+    if(r==0){
+      float **pp; long nb=ov_read_float(&B,&pp,1024,&bs);
+      if(nb!=0){ snprintf(what,sizeof(what),"int_eof_but_float_continues:pos%ld:float%ld",(long)pa,nb); break; }
+      if(pa!=total){ snprintf(what,sizeof(what),"eof_before_total:%ld<%ld",(long)pa,(long)total); break; }
+      break;
+    }
+    if(r>len){ snprintf(what,sizeof(what),"retval_exceeds_length:%ld>%d:pos%ld",r,len,(long)pa); break; }
+    if(r%frame){ snprintf(what,sizeof(what),"retval_not_whole_frames:%ld%%%d:len%d:pos%ld",r,frame,len,(long)pa); break; }
+    if((k=first_touched(raw,GUARD+r,GUARD+blen))>=0){ snprintf(what,sizeof(what),"wrote_beyond_returned_count:off%ld:ret%ld:len%d:pos%ld",k-GUARD,r,len,(long)pa); break; }
+    {
+      long fr=r/frame,got=0;
+      if(ov_pcm_tell(&A)!=pa+fr){ snprintf(what,sizeof(what),"tell_advance:%ld+%ld!=%ld:len%d",(long)pa,fr,(long)ov_pcm_tell(&A),len); break; }
+      if(g.calls==calls0){ snprintf(what,sizeof(what),"filter_not_called:pos%ld:len%d",(long)pa,len); break; }
+      while(got<fr&&!what[0]){
+        float **pp; int b2; long j,c,nb=ov_read_float(&B,&pp,(int)(fr-got),&b2);
+        if(nb<=0){ snprintf(what,sizeof(what),"float_twin_short:%ld:after%ld_of%ld:pos%ld",nb,got,fr,(long)pa); break; }
+        for(j=0;j<nb;j++)for(c=0;c<ch;c++){
+          float y=gain_apply(filt,pp[c][j]); uint32_t bits; int kk; memcpy(&bits,&y,4);
+          kk=judge(bits,word,sgned,be,raw+GUARD+((got+j)*ch+c)*word,&t);
+          if(kk&&!what[0])snprintf(what,sizeof(what),"filtered_value:pos%ld:frame%ld:ch%ld:once_filtered_bits%08x:len%d:filter_got_%ld_samples_this_call",(long)pa,got+j,c,bits,len,g.samples-samples0);
+        }
+        got+=nb;
+      }
+      if(what[0])break;
+      reads++; frames_total+=fr;
+    }
+  }
+  if(!what[0]&&g.samples!=frames_total)snprintf(what,sizeof(what),"filter_sample_count:filter_was_handed_%ld_samples_in_%ld_calls_but_%ld_frames_were_returned",g.samples,g.calls,frames_total);
+  if(!what[0]&&g.chan_mismatch)snprintf(what,sizeof(what),"filter_channel_argument:%ld_calls",g.chan_mismatch);
+  ov_clear(&A); ov_clear(&B);
+  printf("%ld %s",idx,(what[0]||t.bad)?"bad":"ok");
+  print_tally(&t);
+  printf(" reads=%ld rej=%ld frames=%ld fcalls=%ld fsamples=%ld what=%s\n",reads,rej,frames_total,g.calls,g.samples,what[0]?what:"-");
+  __real_free(raw);
+}
+
 /* ------------------------------------------------------------------ loud stream generator
  * A stream the real encoder produced, except that every residue value codebook (maptype>=1) is declared in the setup
  * header with its q_min/q_delta exponent raised by `shift`: the decoder reconstructs every residue value 2^shift times
@@ -358,7 +518,7 @@ int main(int argc,char **argv){
   cf=fopen(cases,"r"); if(!cf)return 2;
   signal(SIGVTALRM,on_alarm);
   while(getline(&line,&lcap,cf)>0){
-    char kind[8],path[400]; long idx; int fmt,len,half; unsigned long long lo,hi; struct itimerval it; int nf;
+    char kind[8],path[400],lspec[400]; long idx; int fmt,len,half; unsigned long long lo,hi; struct itimerval it; int nf;
     if(sscanf(line,"%ld %7s",&idx,kind)!=2)continue;
     g_cur=idx;
     if(deadline&&time(NULL)>=deadline){ printf("%ld SKIP\n",idx); fflush(stdout); continue; }   /* budget only; never part of a verdict */
@@ -371,6 +531,8 @@ int main(int argc,char **argv){
       strat_build();
       run_values(idx,path,fmt,(uint64_t)g_nstrat*lo/hi,(uint64_t)g_nstrat*(lo+1)/hi,g_strat,65536,half);
     }
+    else if(kind[0]=='S'&&sscanf(line,"%*d %*s %399s %d %d %399s",path,&fmt,&len,lspec)==4&&fmt>=0&&fmt<8)run_stream(idx,path,fmt,len,lspec);
+    else if(kind[0]=='F'&&sscanf(line,"%*d %*s %399s %d %d %d",path,&fmt,&len,&half)==4&&fmt>=0&&fmt<8)run_gain(idx,path,fmt,len,half);
     else printf("%ld bad what=badcase\n",idx);
     memset(&it,0,sizeof(it)); setitimer(ITIMER_VIRTUAL,&it,NULL);
     fflush(stdout);
